@@ -59,11 +59,19 @@ def fList (fs : List (String × String)) (k : String) : List Int := parseList (f
 
 def isPanic (impl : String) : Bool := impl.startsWith "panic:"
 
+/-- position of an observed subslice relative to `vs[0]`.  The harness prints `off=-1` exactly when the
+subslice has no capacity (no backing cell, hence no position: `none`, which the acceptance tests let pass) and
+`off=-2` when it does not alias the backing array.  Anything else negative — `-2`, a missing/unreadable field,
+`-1` with a capacity, a negative capacity — is given the impossible position `-1`, which no acceptance test
+admits (they all demand a position `≥ 0`): a negative field is rejected, never clamped. -/
+def readPos (s : S) (off cap : Int) : Option Int :=
+  if off == -1 && cap == 0 then none
+  else if off < 0 || cap < 0 then some (-1)
+  else some (off - s.vs.off)
+
 /-- observed subslice, position made relative to `vs[0]` -/
 def readSub (s : S) (fs : List (String × String)) : Slices.Sub :=
-  let off := fInt fs "off"
-  { elems := fList fs "res", cap := (fInt fs "cap").toNat,
-    pos := if off < 0 then none else some (off - s.vs.off) }
+  { elems := fList fs "res", cap := (fInt fs "cap").toNat, pos := readPos s (fInt fs "off") (fInt fs "cap") }
 
 def readSubs (s : S) (fs : List (String × String)) : List Slices.Sub :=
   let lens := fList fs "lens"
@@ -72,7 +80,7 @@ def readSubs (s : S) (fs : List (String × String)) : List Slices.Sub :=
   let cat := fList fs "cat"
   let rec go : List Int → List Int → List Int → List Int → List Slices.Sub
     | l :: ls, c :: cs, o :: os, cat =>
-      { elems := cat.take l.toNat, cap := c.toNat, pos := if o < 0 then none else some (o - s.vs.off) }
+      { elems := cat.take l.toNat, cap := c.toNat, pos := readPos s o c }
         :: go ls cs os (cat.drop l.toNat)
     | _, _, _, _ => []
   go lens caps offs cat
@@ -98,7 +106,7 @@ def step (s : S) (toks : List String) (impl : String) : S × String × String :=
       let sub := fmtSub mem r
       let vsAfter := fmtInts (window mem s.vs)
       let mem' := (append mem r 99).1
-      let v := verdict (!isPanic impl && Slices.partitionOk keep orig (readSub s fs) (fList fs "vs")) "partition spec"
+      let v := verdict (!isPanic impl && Slices.partitionOk keep orig s.vs.cap (readSub s fs) (fList fs "vs")) "partition spec"
       ({ s with mem := mem' }, s!"{sub} vs={vsAfter} app={fmtInts mem'}", v)
     | .panic m => (s, fmtPanic m, "bad partition must not panic")
     | .hang => (s, "hang", "bad hang")
@@ -149,9 +157,14 @@ def step (s : S) (toks : List String) (impl : String) : S × String × String :=
       | .panic m => (s, fmtPanic m, v)
       | .hang => (s, "hang", "bad hang")
     else if op == "ptrat" then
+      -- position of the pointee relative to `vs[0]`; a pointer that is not into `vs` (the harness prints
+      -- `off=-2` when it is not into the backing array at all) is rejected, not clamped to index 0
+      let rel : Int := fInt fs "off" - s.vs.off
       let got := if impl == "nil" || isPanic impl then none
-                 else some ((fInt fs "off" - s.vs.off).toNat, fInt fs "val")
-      let v := verdict (!isPanic impl && Slices.ptrAtOk orig n got) "ptrat spec"
+                 else some (rel.toNat, fInt fs "val")
+      let v := if impl != "nil" && !isPanic impl && (fInt fs "off" < 0 || rel < 0) then
+          s!"bad ptrat spec: pointer before vs[0] (off={field fs "off"})"
+        else verdict (!isPanic impl && Slices.ptrAtOk orig n got) "ptrat spec"
       match ptrAt s.vs n with
       | some p => (s, s!"off={p} val={s.mem.getD p 0}", v)
       | none => (s, "nil", v)
